@@ -172,6 +172,18 @@ def check_story(story, model, walk_case, label, source=None, corrupted=None):
         for op, st in zip(walk_case["ops"], walk_case["real"]["steps"]):
             if op["op"] == "choose" and "out" in st["resp"] and prev.get("out") and 0 <= op["i"] < len(prev["out"]["choices"]):
                 ch = prev["out"]["choices"][op["i"]]
+                if ch["target"] == "@join":
+                    # a join choice stays in its passage (or leaves it along jump edges of the graph, should a jump be followed)
+                    src = prev["out"]["pid"]
+                    seen, todo = {src}, [src]
+                    while todo:
+                        u = todo.pop()
+                        for v in jset.get(u, ()):
+                            if v not in seen:
+                                seen.add(v)
+                                todo.append(v)
+                    if st["resp"]["out"]["pid"] not in seen:
+                        add(f18, f"a '-> @join' choice taken in {src} landed in {st['resp']['out']['pid']}, which no jump edge of the graph leads to")
                 if ch["target"] != "@join":
                     src = prev["out"]["pid"]
                     if (src, ch["target"]) not in eset and src == prev["cur"]:
@@ -265,7 +277,7 @@ def _chunk(arg):
     items = []
     for idx in idxs:
         r = rng_for(seed, "graph", idx)
-        a = gen_story.generate(r.randrange(1 << 30), dict(params=0.7, long_params=0.7, block_jumps=0.5, top_jumps=0.4, block_choices=0.6, join=0.4, hooks=0.3, empty_passage=0.5, odd_names=0.35))
+        a = gen_story.generate(r.randrange(1 << 30), dict(params=0.7, long_params=0.7, block_jumps=0.5, top_jumps=0.4, block_choices=0.6, join=0.5, join_arrows=0.5, hooks=0.3, empty_passage=0.5, odd_names=0.35))
         corrupted = None
         if r.random() < 0.45:
             corrupted = corrupt(r, a)
